@@ -2,13 +2,13 @@
 Require Extraction.
 Require Import ExtrOcamlBasic.
 From Coq Require Import ZArith.
-From WS Require Import Base.Words Model.Mask Model.MaskAsm Model.Frame Model.Proto Model.CloseCodec Model.Writer Model.RefDecoder Model.Reader Model.CloseSM Model.Handshake Model.Sched Model.NetConn Model.WsJson Model.Life Model.Pools Model.Ping Model.WinPool.
+From WS Require Import Base.Words Model.Mask Model.MaskAsm Model.Frame Model.Proto Model.CloseCodec Model.Writer Model.RefDecoder Model.Reader Model.CloseSM Model.Handshake Model.Sched Model.NetConn Model.WsJson Model.Life Model.Pools Model.Ping Model.WinPool Model.HsCompose.
 Extraction Language OCaml.
 Extraction "model.ml" BinInt.Z.add Mask.maskGo Mask.mask_spec Mask.rotk Mask.mask_piece MaskAsm.maskAsm_amd64
   Frame.enc_hdr Frame.dec_hdr CloseCodec.close_payload CloseCodec.parse_close Gen.CloseCode.valid_wire_code
   Proto.enc_frame Proto.writer_takeover Proto.reader_takeover Writer.w_run Writer.w_wire RefDecoder.parse RefDecoder.wf_stream RefDecoder.ref_events RefDecoder.ref_messages
   Reader.run Gen.Consts.c_initialLimitStored CloseSM.csm_run CloseSM.cs_init
-  Handshake.accept_decide Handshake.verify_server_response Handshake.dial_headers Handshake.render_copts Handshake.accept_key Handshake.hs_get
+  Handshake.accept_decide Handshake.verify_server_response Handshake.dial_headers Handshake.render_copts Handshake.accept_key Handshake.hs_get HsCompose.lib_request HsCompose.lib_response
   Sched.step Sched.init Sched.run Sched.frames_atomic Sched.msgs_unmixed Sched.after_close
   NetConn.nc_read NetConn.nc_init NetConn.dl_step WsJson.wj_write WsJson.wj_read WsJson.wj_reads
   Ping.pg_run Pools.pstep Pools.pinit WinPool.wstep WinPool.winit WinPool.wdict WinPool.warray Life.lstep Life.linit Life.lrun Gen.Consts.c_timeoutWriteClose Gen.Consts.c_timeoutWaitCloseHandshake Gen.Consts.c_timeoutWaitGoroutines Gen.Consts.c_timeoutHandleControl Gen.Consts.c_timeoutWriteControl.
